@@ -1,4 +1,5 @@
 import VModel.Cli
+import VModel.F64Arith
 import VModel.Bincode
 import Driver.ModelParse
 /-! Line-protocol handler for the command-line tools (`CP` predict, `CE` evaluate). -/
@@ -27,7 +28,8 @@ def runCP (flags mS h cl : String) : String :=
     | _ => "101:"
   | _, _, _ => "bad-case"
 
-/-- `CE <flags>:<wsconst|-> <model> <hex stdin> <clusters>` → `<exit>:<counts>` -/
+/-- `CE <flags>:<wsconst|-> <model> <hex stdin> <clusters>` → `<exit>:<counts>;P=<bits>,R=<bits>,F=<bits>` (the binary64 bit
+patterns of precision, recall and F1 as 16 lower-case hex digits, NaN as `7ff8000000000000`) -/
 def runCE (flags mS h cl : String) : String :=
   match parseModel mS, hexToStr? h, parseClusters cl with
   | some m, some stdin, some clusters =>
@@ -38,10 +40,10 @@ def runCE (flags mS h cl : String) : String :=
     | .ok ls =>
       if fl.wordMetric then
         let (cor, sys, ref) := wordCounts ls
-        s!"0:cor={cor},sys={sys},ref={ref}"
+        s!"0:cor={cor},sys={sys},ref={ref};" ++ metricsText (evalMetricsWord (cor, sys, ref))
       else
         let (tp, tn, fp, fn) := charCounts ls
-        s!"0:tp={tp},tn={tn},fp={fp},fn={fn}"
+        s!"0:tp={tp},tn={tn},fp={fp},fn={fn};" ++ metricsText (evalMetricsChar (tp, tn, fp, fn))
     | .err _ => "1:"
     | _ => "101:"
   | _, _, _ => "bad-case"
